@@ -400,6 +400,10 @@ def ns_for_eval(roots):
 def check_terms(chunk):
     import warnings
     warnings.simplefilter("ignore")
+    where = None
+    if isinstance(chunk, tuple):          # (tier, first index, terms): recorded in the issues so that a replay can re-run the whole chunk
+        where = {"tier": chunk[0], "lo": chunk[1]}
+        chunk = chunk[2]
     data, funcs, m, roots = term_world()
     out = {"evaluations": 0, "issues": [], "texts": set(), "outcomes": {}}
     ns = ns_for_eval(roots)
@@ -465,7 +469,7 @@ def check_terms(chunk):
                                           "program": [f"e = {T.show(t)}", "eval(str(e), namespace)"], "case": {"term": repr(t)}})
             elif len(out["issues"]) < 30:
                 out["issues"].append({"kind": "violation", "property": "C11", "finding": None, "what": what, "config": {},
-                                      "program": [f"e = {T.show(t)}", "eval(str(e), namespace)"], "case": {"term": repr(t)}})
+                                      "program": [f"e = {T.show(t)}", "eval(str(e), namespace)"], "case": {"term": repr(t), "chunk": where}})
     return out
 
 
@@ -499,7 +503,7 @@ def run_job(job):
     a = job["args"]
     if a["what"] == "terms":
         corpus = term_corpus(a["tier"])
-        r = E.pmap(check_terms, E.chunked(corpus, 400), job.get("nproc", 1))
+        r = E.pmap(check_terms, [(a["tier"], lo, corpus[lo:lo + 400]) for lo in range(0, len(corpus), 400)], job.get("nproc", 1))
         return {"kind": "terms", "evaluations": r["evaluations"], "issues": r["issues"], "texts": len(r.get("texts", ())),
                 "outcomes": r.get("outcomes", {}), "corpus": len(corpus)}
     w = WORLDS[a["world"]]
@@ -523,6 +527,22 @@ def finish(plan_, results):
 def replay(issue):
     import ast
     if "term" in issue.get("case", {}):
-        r = check_terms([ast.literal_eval(issue["case"]["term"])])
-        return {"still_fails": bool(r["issues"]), "what": r["issues"][0]["what"] if r["issues"] else "ok"}
+        case = issue["case"]
+        r = check_terms([ast.literal_eval(case["term"])])
+        bad = [i for i in r["issues"] if i["kind"] == "violation"]
+        if not bad and case.get("chunk"):
+            # the failure may depend on what was printed / evaluated earlier in the same process: re-run the whole chunk
+            corpus = term_corpus(case["chunk"]["tier"])
+            lo = case["chunk"]["lo"]
+            r = check_terms((case["chunk"]["tier"], lo, corpus[lo:lo + 400]))
+            bad = [i for i in r["issues"] if i["kind"] == "violation" and i["case"]["term"] == case["term"]]
+            if not bad:
+                # worker processes of the original run handled several chunks in an order that is not recorded: as a last resort
+                # run the whole corpus in this one process and report any violation of the term-level check
+                for lo2 in range(0, len(corpus), 400):
+                    r = check_terms((case["chunk"]["tier"], lo2, corpus[lo2:lo2 + 400]))
+                    bad = [i for i in r["issues"] if i["kind"] == "violation"]
+                    if bad:
+                        break
+        return {"still_fails": bool(bad), "what": bad[0]["what"] if bad else "ok"}
     return replay_history(System, issue)
